@@ -135,11 +135,15 @@ def o_marginal(spec):
         require(set(got2) == set(want2) and all(abs(got2[k] - p) <= 1e-9 * max(1.0, max(want2.values())) for k, p in want2.items()),
                 lambda: f"marginal on {q2} requested after the marginal on {qs}: {got2}, expected {want2}")
         require(dist.distribution_dict == src, "a later subdistribution changed the source distribution")
-    if spec["bad"] == "range":
-        must_raise(ValueError, lambda: dist.subdistribution([0, d["n"]]), "subdistribution with an out-of-range index")
-    elif spec["bad"] == "dup":
-        must_raise(ValueError, lambda: dist.subdistribution([0, 0]), "subdistribution with a duplicate index")
-    require(dist.distribution_dict == src, "a refused subdistribution changed the source")
+    # qubit lists outside the statement's domain (out of range / duplicates): whatever the library does with them
+    # (it refuses them today), the source must stay intact
+    bad_list = [0, d["n"]] if spec["bad"] == "range" else ([0, 0] if spec["bad"] == "dup" else None)
+    if bad_list is not None:
+        try:
+            dist.subdistribution(bad_list)
+        except Exception:  # noqa: BLE001 - refusal is fine, and so is acceptance: not claimed by the property
+            pass
+    require(dist.distribution_dict == src, "a subdistribution call with an invalid qubit list changed the source")
     merges = len(want) < len(refp)
     identity_order = qs == sorted(qs)
     cl = ["form:" + d["form"]]
@@ -201,7 +205,7 @@ def o_invalid(spec):
     else:
         bad = {tuple([-1] * spec["d"]["n"]): 1.0}
     # only "normalisation on" (the default) is in the statement's scope
-    must_raise((RuntimeError, ValueError, IndexError), lambda: MeasurementOutcomeDistribution(bad), f"constructor with {k} input {bad}")
+    must_raise(Exception, lambda: MeasurementOutcomeDistribution(bad), f"constructor with {k} input {bad}")
     return {"classes": ["kind:" + k], "nontrivial": k in ("negative", "negative_total_one", "unequal", "unequal_total_one", "all_zero")}
 
 
